@@ -99,8 +99,13 @@ def arithmetic_simple(L, c, qt, u, fu, oqt):
     an, on = Array(c, np.array([1.0, 2.0]), u), Array(np.array([1.0, 2.0]), fu)
     at, ot = Array(c, (1.0, 2.0), u), Array((1.0, 2.0), fu)
     fa, fo2 = FixedArray(2, c, [1.0, 2.0], u), FixedArray(2, [1.0, 2.0], fu)
+    # no values at all is a legal length: the dimensions still differ
+    el, eol = Array(c, [], u), Array([], fu)
+    et, eot = Array(c, (), u), Array((), fu)
+    en, eon = Array(c, np.array([]), u), Array(np.array([]), fu)
     for n, op in ADDSUB:
-        for tag, x, y in (("Scalar", s, o), ("Array[list]", al, ol), ("Array[nd]", an, on), ("Array[tuple]", at, ot), ("Array[list/nd]", al, on), ("FixedArray", fa, fo2)):
+        for tag, x, y in (("Scalar", s, o), ("Array[list]", al, ol), ("Array[nd]", an, on), ("Array[tuple]", at, ot), ("Array[list/nd]", al, on), ("FixedArray", fa, fo2),
+                          ("Array[list,empty]", el, eol), ("Array[tuple,empty]", et, eot), ("Array[nd,empty]", en, eon), ("Array[list/tuple,empty]", el, eot), ("Array[list/nd,empty]", el, eon)):  # fmt: skip
             L.must_raise("%s %s %s" % (tag, n, tag), lambda: op(x, y), case, (x, y))
             L.must_raise("%s %s %s (swapped)" % (tag, n, tag), lambda: op(y, x), case, (x, y))
     for n, op in ORDER:
